@@ -26,6 +26,9 @@ type Work struct {
 	// Twice: the parties hand the very same objects in again in a second generation (a fresh file
 	// manager); the second assembly is the one that is judged
 	Twice bool `json:"twice,omitempty"`
+	// ViaGenerator: the history goes through generator.Generator.Generate (one Generator for all
+	// generations): the first party is the backend, the others are SDK plugins
+	ViaGenerator bool `json:"via_generator,omitempty"`
 }
 
 // RespFile is one file of the assembled output.
